@@ -54,6 +54,42 @@ def submit_order(dag, throttle):
         S.uninstall()
 
 
+def cli_store(j, root):
+    """the study as the real command stores it: `maestro run -n --pgen FILE -o root spec.yaml` (staged and
+    stored, the launch question answered with no); returns the study object the command held in memory"""
+    import contextlib
+    import io
+    import yaml
+    import maestrowf.maestro as mmod
+    from maestrowf.conductor import Conductor
+    os.makedirs(os.path.dirname(root), exist_ok=True)
+    spec_path, gen_path = root + ".yaml", root + "_custom_gen.py"
+    with open(spec_path, "w") as f:
+        yaml.safe_dump(dict(j["spec"], batch=j.get("batch", {"type": "local"})), f, sort_keys=False)
+    with open(gen_path, "w") as f:
+        f.write(j["cli_pgen"])
+    held = {}
+    orig = Conductor.store_study
+
+    def store(study):
+        held["study"] = study
+        return orig(study)
+    argv = sys.argv
+    sys.argv = ["maestro", "run", "-n", "-o", root, "--pgen", gen_path, "-r", str(j["rlimit"])] + \
+               (["--hashws"] if j["hash_ws"] else []) + [spec_path]
+    Conductor.store_study = staticmethod(store)
+    try:
+        with contextlib.redirect_stdout(io.StringIO()):
+            try:
+                mmod.main()
+            except SystemExit:
+                pass
+    finally:
+        sys.argv = argv
+        Conductor.store_study = orig
+    return held["study"]
+
+
 def main():
     mode = sys.argv[1]
     base = sys.argv[2]
@@ -70,13 +106,15 @@ def main():
                 os.symlink(real, link)
             root = os.path.join(link, j["id"])
         try:
-            if mode in ("stage", "store"):
+            if mode == "store" and j.get("cli_pgen"):
+                study = cli_store(j, root)
+            elif mode in ("stage", "store"):
                 _y, study = SS.load_study(j["spec"], root, hash_ws=j["hash_ws"], rlimit=j["rlimit"],
                                           throttle=j.get("throttle", 0), attempts=j.get("attempts", 1))
                 if j.get("pgen"):
                     import random
                     SS.pgen_variant(random.Random(j["pgen"]), study)
-                if mode == "store":
+                if mode == "store" and not j.get("cli_pgen"):
                     Conductor.store_study(study)
                     Conductor.store_batch(root, j.get("batch", {"type": "local"}))
             else:
